@@ -1,11 +1,13 @@
 import McpModel.Sessions.BridgeStateless
+import McpModel.Sessions.BridgeOps8
 /-!
 # Bridge (E7 / C11): the monitor raises no clause on any observation trace of the model
 
 `monitor_accepts_model`: for every configuration with the repaired publication (`publishChecks`, F20) and
 EVERY list of harness operations — POST (init / badinit / ping / notif / slow) with no, minted, never-minted
-ids by any user, `postx`, GET, DELETE, other methods, release / abandon of parked handlers, clock ticks of
-any length, event-store fault scripts, server-side closes; each operation is the label list that the real
+ids by any user, `postx`, POSTs whose body arrives in pieces (`postb` / `body`: in progress from the arrival of
+their headers, without a handler until the last piece), GET, DELETE, other methods, release / abandon of parked
+handlers, clock ticks of any length, event-store fault scripts, server-side closes; each operation is the label list that the real
 handler executes for it, followed by the internal labels enabled at quiescence — the typed monitor
 (`runMon`) reports nothing on the model's own observations (`modelTrace`), and the end-of-case clause is
 silent on the model's final record (`monEnd_accepts_model`).
@@ -58,7 +60,8 @@ theorem sim_sl_step {cfg : Cfg} {d d' : RState} {m : Mon} {o : Obs} (hs : SimSL 
         · have := (ha.1 hv).1
           have hv' : (r.verb == Verb.post) = false := by simp [hv]
           simp [hv', this]
-    · unfold chkLog
+    · rw [chkLogOp_eq ho.notBody]
+      unfold chkLog
       cases hr : op.req with
       | none => simp [ho.nolog hr]
       | some r =>
@@ -87,6 +90,7 @@ theorem sim_sl_step {cfg : Cfg} {d d' : RState} {m : Mon} {o : Obs} (hs : SimSL 
       simp [this]
     · unfold chkNoId
       cases op.req <;> simp [hs.stateless]
+    · rw [ho.map, ho.stale]; rfl
   · obtain ⟨e1, e2, e3, e4, e5, e6, e7⟩ := monStep_mon cfg m op o
     have hcfg' : d'.st.cfg = cfg := by rw [ho.cfg]; exact hs.cfg_eq
     refine ⟨hcfg', ?_, hs.stateless, ?_, ?_, ?_, ?_⟩
@@ -154,6 +158,8 @@ theorem sim_step {cfg : Cfg} {d d' : RState} {m : Mon} {o : Obs} (hs : SimAny cf
       | tick n => exact sim_tick hs n hop
       | fault f => exact sim_fault hs f hop
       | close ref => exact sim_close hs ref hop
+      | postb ref u => exact sim_postb hs ref u hop
+      | body n fin => exact sim_body hs n fin hop
     exact ⟨key.1, Or.inl ⟨hsl, key.2⟩⟩
   · have key := sim_sl_step hs op hop
     exact ⟨key.1, Or.inr ⟨hsl, key.2⟩⟩
